@@ -34,6 +34,8 @@ def wf_shape(rec, pm, sch, items, desc, wrap=None):
         sh.emit_block([('func', items, True), B], 0)
     elif wrap == 'sibling':
         sh.emit_block([('if', [[B]], None), ('while', [B])] + items, 0)
+    elif wrap == 'function-in-block':
+        sh.emit_block([('while', [B, ('if', [[('func', items, False), B]], None)])], 0)
     else:
         sh.emit_block(items, 0)
     src = '\n'.join(sh.src)
